@@ -954,6 +954,17 @@ def _amax(self, func, res, args, kwargs, pre):
     self.write(res, S.reshape(tuple(res.shape)), fresh=True)
 
 
+@handler(aten.aminmax)
+def _aminmax(self, func, res, args, kwargs, pre):
+    a = args[0]
+    dim = kwargs.get("dim", None)
+    keepdim = kwargs.get("keepdim", False)
+    dims = tuple(range(a.ndim)) if dim is None else _reduce_dims(a, dim)
+    for out, op in zip(res, ("min", "max")):
+        S = _reduce(self, self.read(a), dims, keepdim, _fold(self.ctx, op, a.dtype))
+        self.write(out, S.reshape(tuple(out.shape)), fresh=True)
+
+
 @handler(aten.max, aten.min)
 def _max(self, func, res, args, kwargs, pre):
     a = args[0]
